@@ -457,13 +457,18 @@ def run_e3(prop, replay_bins, tier="quick"):
             if q.get("witness"):
                 ok = []
                 for prof, binp in replay_bins.items():
-                    try:
-                        pr = subprocess.run([binp, "--witness", q["witness"]], stdout=subprocess.PIPE, stderr=subprocess.PIPE, text=True, timeout=300)
-                        rp["profiles"][prof] = {"rc": pr.returncode, "out": (pr.stdout + pr.stderr)[-400:]}
-                        ok.append(pr.returncode == 1)
-                    except Exception as e:  # noqa
-                        rp["profiles"][prof] = {"error": str(e)}
-                        ok.append(False)
+                    # several witnesses may be named (comma separated): the defect has to manifest in one of them
+                    hit = False
+                    for wid in q["witness"].split(","):
+                        try:
+                            pr = subprocess.run([binp, "--witness", wid], stdout=subprocess.PIPE, stderr=subprocess.PIPE, text=True, timeout=600)
+                            rp["profiles"][prof + ":" + wid] = {"rc": pr.returncode, "out": (pr.stdout + pr.stderr)[-400:]}
+                            if pr.returncode == 1:
+                                hit = True
+                                break
+                        except Exception as e:  # noqa
+                            rp["profiles"][prof + ":" + wid] = {"error": str(e)}
+                    ok.append(hit)
                 rp["reproduced"] = all(ok) if ok else None
             r["replays"] = [rp]
             r["failed_checks"] = [{"desc": msg, "loc": "MIR", "name": q["name"]}]
